@@ -70,7 +70,9 @@ def maker(cfg):
             top, bus, mm = mon, mon.bus, mon.bus.memory_map
             ports = flat_ports(mon) + sp
         elif cfg["attach"] == "decoder":
-            dec = csr.Decoder(addr_width=mon.bus.addr_width + 1, data_width=cfg["dw"])
+            # (every other decoder attachment uses a decoder exactly as wide as the monitor: a single window that fills
+            #  the decoder's whole address space)
+            dec = csr.Decoder(addr_width=mon.bus.addr_width + (1 if (cfg["n"] + cfg["al"]) % 2 else 0), data_width=cfg["dw"])
             dec.add(mon.bus, name=("mon",))
             m = Module()
             m.submodules.dec = dec
